@@ -16,6 +16,8 @@ func init() {
 			a.c18StateWriters()
 			a.c18Resend()
 			a.c03NoOtherEmitters("W.emitters")
+			a.policiesImmutable("W.policies")
+			a.cipherBuffers("K.cipher-buffers")
 		})
 }
 
@@ -286,10 +288,12 @@ func (a *An) counterConsumed(rule string) {
 		"a data message can be generated without advancing the counter: the next message is enciphered with the same key and counter (keystream reuse)")
 	// the wire counter is written before the increment, from the same record
 	var put *ssa.Call
-	for _, b := range fn.Blocks {
-		for _, in := range b.Instrs {
-			if c, isC := in.(*ssa.Call); isC && strings.HasSuffix(a.F.callName(c), ".PutUint64") {
-				put = c
+	for _, g := range a.ownedFns(fn) {
+		for _, b := range g.Blocks {
+			for _, in := range b.Instrs {
+				if c, isC := in.(*ssa.Call); isC && strings.HasSuffix(a.F.callName(c), ".PutUint64") {
+					put = c
+				}
 			}
 		}
 	}
@@ -313,4 +317,37 @@ func (a *An) c03NoOtherEmitters(rule string) {
 		}
 	}
 	a.R.Floor(rule, 5)
+}
+
+// policiesImmutable: the policy set is the user's configuration: nothing in the two packages writes
+// Conversation.Policies (directly or through the mutating methods of the policy type). What Send does with a text is
+// decided from it on every call.
+func (a *An) policiesImmutable(rule string) {
+	R := a.R
+	n := 0
+	for _, f := range a.C.FuncSeq {
+		if f.Blocks == nil {
+			continue
+		}
+		n++
+		bad := ""
+		var at ssa.Instruction
+		for _, b := range f.Blocks {
+			for _, in := range b.Instrs {
+				for _, ef := range a.E.InstrEffectsAll(in) {
+					if ef.Kind == EffAppend {
+						continue
+					}
+					if p := a.C.abs(f, ef.Path); p == "Conversation.Policies" || strings.HasPrefix(p, "Conversation.Policies.") {
+						bad, at = p, in
+					}
+				}
+			}
+		}
+		if bad != "" {
+			R.Viol(rule, "write|"+a.C.Name(a.C.owner(f)), "the library does not modify the user's policy set", a.C.InstrPos(at),
+				a.C.Name(f)+" writes "+bad+": a policy the user set (require encryption, allowed versions, …) can silently stop applying")
+		}
+	}
+	R.Check(n > 200, rule, "functions", "all functions of the two packages examined", "", fmt.Sprintf("%d", n))
 }
